@@ -58,3 +58,20 @@ package common
 
 //@ lemma [C16] round-unique: forall p int, g int, t int, r1 int, r2 int :: p >= 1 && r1 >= 1 && r2 >= 1 && g + (r1-1)*p <= t && t < g + r1*p && g + (r2-1)*p <= t && t < g + r2*p ==> r1 == r2
 //@ lemma [C16] time-strictly-increasing: forall p int, g int, r1 int, r2 int :: p >= 1 && 1 <= r1 && r1 < r2 ==> g + (r1-1)*p < g + (r2-1)*p
+
+// ---- beacon id helpers (used by C19 routing contracts) ------------------------
+
+//@ func IsDefaultBeaconID(beaconID) (r)
+//@   props C19
+//@   modifies nothing
+//@   ensures [C19:default-id-is-empty-or-default] r <==> (beaconID == "default" || beaconID == "")
+
+//@ func CompareBeaconIDs(id1, id2) (r)
+//@   props C19
+//@   modifies nothing
+//@   ensures [C19:ids-equal-modulo-default] r <==> (((id1 == "default" || id1 == "") && (id2 == "default" || id2 == "")) || id1 == id2)
+
+//@ func GetCanonicalBeaconID(id) (r)
+//@   props C19
+//@   modifies nothing
+//@   ensures [C19:canonical-id] r == ite(id == "default" || id == "", "default", id)
